@@ -30,6 +30,8 @@ pub enum Op {
   Subscribe,
   /// unsubscribe the pre-made subscription
   Unsubscribe,
+  /// unsubscribe the source subject A itself (through a clone)
+  UnsubSubject,
 }
 
 #[derive(Clone, Copy, Debug, PartialEq, Eq)]
@@ -150,6 +152,7 @@ fn run_op(sh: &Arc<Shared>, thread: usize, op: Op) {
       let end = sh.ctx.stamp();
       sh.late_probes.lock().unwrap().push((p, start, end));
     }
+    Op::UnsubSubject => sh.a.clone().unsubscribe(),
     Op::Unsubscribe => {
       let u = sh.sub0.lock().unwrap().take();
       match u {
@@ -311,6 +314,8 @@ pub fn script_scenario(prop: &str, shape: Shape, scripts: Vec<Vec<Op>>, oracle: 
             .iter()
             .filter(|c| matches!(c.op, Op::CompleteA | Op::ErrorA))
             .min_by_key(|c| c.start);
+          // the subject itself unsubscribed: silent end of everything
+          let closed: Option<&Call> = calls.iter().filter(|c| c.op == Op::UnsubSubject).min_by_key(|c| c.start);
           let unsub = calls.iter().find(|c| c.op == Op::Unsubscribe);
           let mut plist: Vec<(&TProbe, u64, u64, bool)> = vec![(&p0, 0, 0, true), (&p1, 0, 0, false)];
           for (p, s, e) in late.iter() {
@@ -330,7 +335,7 @@ pub fn script_scenario(prop: &str, shape: Shape, scripts: Vec<Vec<Op>>, oracle: 
                   format!("probe {} got item {v} {n} times: [{}]", p.name, fmt_notes(&notes)),
                 );
               }
-              let before_term = term.map_or(true, |t| c.end < t.start);
+              let before_term = term.map_or(true, |t| c.end < t.start) && closed.map_or(true, |t| c.end < t.start);
               let not_unsub = !is_p0 || unsub.map_or(true, |u| c.end < u.start);
               if sub_end <= c.start && before_term && not_unsub && n == 0 {
                 ctx.fail(
@@ -360,7 +365,9 @@ pub fn script_scenario(prop: &str, shape: Shape, scripts: Vec<Vec<Op>>, oracle: 
             }
             // a subscriber present before the terminal started gets it
             if let Some(t) = term {
-              let present = sub_end <= t.start && (!is_p0 || unsub.map_or(true, |u| t.end < u.start));
+              let present = sub_end <= t.start
+                && (!is_p0 || unsub.map_or(true, |u| t.end < u.start))
+                && closed.map_or(true, |x| t.end < x.start);
               let got = notes.iter().filter(|x| x.is_terminal()).count();
               if present && got != 1 {
                 ctx.fail(
@@ -376,6 +383,7 @@ pub fn script_scenario(prop: &str, shape: Shape, scripts: Vec<Vec<Op>>, oracle: 
           let triggered = calls
             .iter()
             .any(|c| matches!(c.op, Op::CompleteA | Op::ErrorA | Op::Unsubscribe));
+          let _ = Op::UnsubSubject;
           if n != triggered as usize {
             ctx.fail(
               format!("{prop}:finalize-count:{}", shape.name()),
@@ -695,7 +703,7 @@ pub fn plan(prop: &str, tier: Tier) -> Option<Plan> {
       let c2 = if q { 2 } else { 3 };
       let c3 = if q { 1 } else { 2 };
       // shared subject: 2 threads x <=2 calls (exhaustive scripts), selected 3-call and 3-thread scripts
-      let alpha = [Op::NextA(1), Op::CompleteA, Op::ErrorA, Op::Subscribe, Op::Unsubscribe];
+      let alpha = [Op::NextA(1), Op::CompleteA, Op::ErrorA, Op::Subscribe, Op::Unsubscribe, Op::UnsubSubject];
       let s2 = seqs(&alpha, 2);
       for (i, x) in s2.iter().enumerate() {
         for y in s2.iter().skip(i) {
@@ -793,7 +801,7 @@ pub fn plan(prop: &str, tier: Tier) -> Option<Plan> {
     }
     "C06" => {
       let c = if q { 2 } else { 3 };
-      let alpha = [Op::NextA(1), Op::CompleteA, Op::ErrorA, Op::Subscribe, Op::Unsubscribe];
+      let alpha = [Op::NextA(1), Op::CompleteA, Op::ErrorA, Op::Subscribe, Op::Unsubscribe, Op::UnsubSubject];
       let s2 = seqs(&alpha, 2);
       for (i, x) in s2.iter().enumerate() {
         for y in s2.iter().skip(i) {
